@@ -400,8 +400,10 @@ class SqlImpl(TableImpl):
             cnt = dict()
             name_in_subquery = dict()
 
-            # resolve potential column name collisions in the subquery
-            for uid in needed_cols.keys():
+            # resolve potential column name collisions in the subquery (visible columns
+            # come first so that they keep their name)
+            visible = set(original_select)
+            for uid in sorted(needed_cols.keys(), key=lambda uid: uid not in visible):
                 if uid in sqa_expr:
                     name = sqa_expr[uid].name
                     if c := cnt.get(name):
